@@ -30,6 +30,36 @@ pub fn container<F: Fl>(w: &World<F>, order: &[K], seed: u64) -> F::Graph {
         let ok = F::g_insert(&mut g, w.nodes[*k as usize].clone());
         hassert!(ok, "insert of a fresh key refused");
     }
+    // non-initial container states (job parameter `churn`, see gsweep::build_world):
+    // the same member set reached through removals and re-insertions
+    match crate::gsweep::churn() {
+        1 => {
+            // every member removed and inserted again, one after the other
+            for k in order {
+                if let Some(n) = F::g_remove(&mut g, *k) {
+                    F::g_insert(&mut g, n);
+                }
+            }
+        }
+        2 => {
+            // all members removed, then all inserted again
+            let taken: Vec<F::Node> = order.iter().filter_map(|k| F::g_remove(&mut g, *k)).collect();
+            for n in taken {
+                F::g_insert(&mut g, n);
+            }
+        }
+        3 => {
+            // the first member removed and inserted again twice
+            if let Some(k) = order.first() {
+                for _ in 0..2 {
+                    if let Some(n) = F::g_remove(&mut g, *k) {
+                        F::g_insert(&mut g, n);
+                    }
+                }
+            }
+        }
+        _ => {}
+    }
     g
 }
 
